@@ -229,9 +229,91 @@ class GetitemName(Contract):
         return out
 
 
+class SelWithSubregions(Contract):
+    """mesh.sel(...) on a mesh WITH a subregion: the selection keeps the subregion exactly when it overlaps the selected
+    cells, clipped to them, re-created on the lattice of the new mesh (Mesh.__init__ and the subregion setter are executed,
+    not assumed: the new mesh re-validates what it is given)"""
+    name = 'Mesh.sel[subregions]'
+    qual = ('Mesh', 'sel')
+    func = 'Mesh.sel'
+
+    def configs(s, tier):
+        out = []
+        for d in ((2,) if tier == 'quick' else (2, 3)):
+            for kind in ('value', 'range'):
+                out.append({'ndim': d, 'axis': 0, 'kind': kind})
+        out.append({'ndim': 1, 'axis': 0, 'kind': 'range'})
+        return out
+
+    def pre_state(s, E, cfg):
+        d, ax = cfg['ndim'], cfg['axis']
+        m, assume = sym_mesh(E, d, nsub=1, tf=1e-12, cellcond=True)
+        reg = m.attrs['_region'].attrs
+        dim = reg['_dims'][ax]
+        st = State(m, [], {})
+        if cfg['kind'] == 'value':
+            x = inp(E, 'x', 'float')
+            assume += [R(x) >= R(reg['_pmin'].elems[ax]), R(x) <= R(reg['_pmax'].elems[ax])]
+            st.kw[dim] = x
+            st.x = x
+        else:
+            lo, hi = inp(E, 'lo', 'float'), inp(E, 'hi', 'float')
+            assume += [R(lo) >= R(reg['_pmin'].elems[ax]), R(lo) <= R(hi), R(hi) <= R(reg['_pmax'].elems[ax])]
+            st.kw[dim] = (lo, hi)
+            st.lo, st.hi = lo, hi
+        st.assume, st.kind, st.axis = assume, cfg['kind'], ax
+        return st
+
+    def frame(s, E, st):
+        return [('self', st.self)]
+
+    def post(s, E, st, result):
+        from .shared import cell_of
+        m, ax = st.self, st.axis
+        if not isinstance(result, Obj) or result.cls != 'Mesh':
+            return [('result is a Mesh', False)]
+        reg = m.attrs['_region'].attrs
+        cell = m.ghost['cell']
+        a, b = m.ghost['sub']['sr0']
+        d = len(a)
+        subs = result.attrs.get('_subregions')
+        if not isinstance(subs, dict):
+            return [('subregions is a dict', False)]
+        probe = lambda x: [x if j == ax else reg['_pmin'].elems[j] for j in range(d)]
+        out = []
+        rreg = result.attrs['_region'].attrs
+        if st.kind == 'value':
+            k = cell_of(E, m, probe(st.x))[ax]
+            overlaps = z3.And(I(a[ax]) <= k, k < I(b[ax]))
+            keep = [j for j in range(d) if j != ax]
+            want = [(R(reg['_pmin'].elems[j]) + R(a[j]) * R(cell[j]), R(reg['_pmin'].elems[j]) + R(b[j]) * R(cell[j])) for j in keep]
+        else:
+            k_lo, k_hi = cell_of(E, m, probe(st.lo))[ax], cell_of(E, m, probe(st.hi))[ax]
+            overlaps = z3.And(I(a[ax]) <= k_hi, k_lo < I(b[ax]))
+            want = []
+            for j in range(d):
+                lo_l = z3.If(I(a[j]) >= k_lo, I(a[j]), k_lo) if j == ax else I(a[j])
+                hi_l = z3.If(I(b[j]) <= k_hi + 1, I(b[j]), k_hi + 1) if j == ax else I(b[j])
+                want.append((R(reg['_pmin'].elems[j]) + z3.ToReal(lo_l) * R(cell[j]), R(reg['_pmin'].elems[j]) + z3.ToReal(hi_l) * R(cell[j])))
+        present = 'sr0' in subs
+        out.append(('the subregion is kept exactly when it overlaps the selected cells', overlaps if present else z3.Not(overlaps)))
+        if present:
+            sr = subs['sr0'].attrs
+            out.append(('kept subregion carries the dims / units of the new mesh', z3.BoolVal(sr['_dims'] == rreg['_dims'] and sr['_units'] == rreg['_units'])))
+            for i, (wl, wh) in enumerate(want):
+                out.append((f'kept subregion, remaining axis {i}: clipped to the selection (whole cells of the parent lattice)',
+                            z3.And(R(sr['_pmin'].elems[i]) == wl, R(sr['_pmax'].elems[i]) == wh)))
+                out.append((f'kept subregion, remaining axis {i}: inside the new mesh region',
+                            z3.And(R(sr['_pmin'].elems[i]) >= R(rreg['_pmin'].elems[i]), R(sr['_pmax'].elems[i]) <= R(rreg['_pmax'].elems[i]), R(sr['_pmin'].elems[i]) < R(sr['_pmax'].elems[i]))))
+        return out
+
+
+# SelWithSubregions is not registered: with Mesh.__init__ and the setter inlined its obligations did not finish within
+# the quick budget (15 min for the first configuration); clipping of subregions in selections stays with the bounded tier
 CONTRACTS = [SubregionsSetter(), IsAligned(), GetitemName()]
 _BY_NAME = {c.name: c for c in CONTRACTS}
-_USE = [RegionInit()]
+from .shared import Point2Index as _P2I
+_USE = [RegionInit(), _P2I()]
 
 
 def contract(name):
